@@ -273,4 +273,33 @@ def runC (f : Bytes) (cmp : Bytes → Bytes → Ordering) (fuel : Nat) :
     let (os, c2, r2) ← runC f cmp fuel ops c1
     some (o :: os, c2, r1 ++ r2)
 
+/-! ### … and with range visits among them -/
+
+/-- lookups, Min/Max, evictions (`point`) and range visits: to the end (`stop = 0`) or with a
+    visitor that says stop at its `stop`-th item -/
+inductive COp2
+  | point (op : COp)
+  | visit (asc : Bool) (tgt : Bytes) (wv : Bool) (stop : Nat)
+deriving DecidableEq, Repr
+
+inductive COut
+  | one (o : Option Found)
+  | many (l : List (Found × Nat))
+deriving DecidableEq, Repr
+
+def stepC2 (f : Bytes) (cmp : Bytes → Bytes → Ordering) (fuel : Nat) (c : CTree) :
+    COp2 → Option (COut × CTree × List Rd)
+  | .point op => (stepC f cmp fuel c op).map fun x => (.one x.1, x.2.1, x.2.2)
+  | .visit asc tgt wv 0 => (visitC f cmp asc wv fuel c tgt 0).map fun x => (.many x.1, x.2.1, x.2.2)
+  | .visit asc tgt wv (k+1) =>
+    (visitCK f cmp asc wv fuel c tgt 0 (k+1)).map fun x => (.many x.1, x.2.2.1, x.2.2.2)
+
+def runC2 (f : Bytes) (cmp : Bytes → Bytes → Ordering) (fuel : Nat) :
+    List COp2 → CTree → Option (List COut × CTree × List Rd)
+  | [], c => some ([], c, [])
+  | op :: ops, c => do
+    let (o, c1, r1) ← stepC2 f cmp fuel c op
+    let (os, c2, r2) ← runC2 f cmp fuel ops c1
+    some (o :: os, c2, r1 ++ r2)
+
 end Gkv.Cache
